@@ -2,6 +2,7 @@
 
 import ast
 
+from ..core.astutil import deref
 from ..core.analysis import Analysis, facts
 from ..core.effects import Reads, written_globals
 from ..core.pyrepo import Repo, calls_in, dotted, norm_stmt
@@ -305,7 +306,7 @@ def run(ctx):
                     isinstance(t, ast.Attribute) and t.attr == "_pid_reused" for t in st.targets):
                 nst += 1
                 key = f"reused-on-evidence:{fi.qual}:{norm_stmt(st)}"
-                if _is_identity_compare(st.value):
+                if _is_identity_compare(deref(fi.node, st.value)):
                     ctx.ok("C02.R4", key, sample=norm_stmt(st))
                 else:
                     ctx.fail("C02.R4", key, fi.file, st.lineno, fi.qual,
